@@ -40,6 +40,7 @@ class Transcript:
         self.cl = {}            # pos -> bool
         self.recs = {}          # pos -> [records] (toRecords)
         self.stats = {}         # pos -> (active list, rx)
+        self.elapsed = {}       # pos -> ns
         for i, o in enumerate(outs):
             if i >= len(lines):
                 break
@@ -58,6 +59,8 @@ class Transcript:
             elif o.startswith("ctx "):
                 f = o.split()
                 self.ctx[i] = None if f[1] == "none" else (int(f[1], 16), f[2], f[3] == "1")
+            elif o.startswith("elapsed 1~"):
+                self.elapsed[i] = int(o.split("~")[1])
             elif o.startswith("cl "):
                 self.cl[i] = o == "cl 1"
             elif o.startswith("stats "):
@@ -325,6 +328,78 @@ def o_copies(spec, tr):
                 out.append("copies of %r differ: id %s/%s props %r/%r" % (name, base["id"], r["id"], base["props"], r["props"]))
             if abs(r["dur"] - base["dur"]) > 2000:
                 out.append("copies of %r have durations %d and %d" % (name, base["dur"], r["dur"]))
+    return out
+
+
+def o_times(spec, tr, times):
+    """C18: durations, begin times, containment, sibling order, event timestamps, elapsed()"""
+    out = []
+    if not times:
+        return out
+    T = times
+
+    def ok_pos(p):
+        return p is not None and p < len(T) and T[p] is not None
+    names = {}
+    for e in spec.expected:
+        names.setdefault((e["name"], e["trace"]), []).append(e)
+    by_report = {}
+    for pos, r in tr.delivered():
+        by_report.setdefault(pos, []).append(r)
+        es = names.get((r["name"], r["trace"]))
+        if not es or len(es) != 1 or r["name"].startswith("p"):
+            continue
+        e = es[0]
+        b, c = e.get("born"), e.get("closed")
+        if c is None:
+            c = e["fin"]          # still open when its set was collected: ends at collection time
+        if ok_pos(b) and ok_pos(c):
+            lo = T[c][0] - T[b][1]
+            hi = T[c][1] - T[b][0]
+            tol = 150_000 + r["dur"] // 5000
+            if not (lo - tol <= r["dur"] <= hi + tol):
+                out.append("record %r: duration %d ns, but its span started during [%d,%d] and finished during [%d,%d] of the run (monotonic ns): expected %d..%d"
+                           % (r["name"], r["dur"], T[b][0], T[b][1], T[c][0], T[c][1], lo, hi))
+            if not (T[b][2] - 3_000_000 <= r["begin"] <= T[b][3] + 3_000_000):
+                out.append("record %r: begin time %d is outside the wall-clock window [%d,%d] of the call that created the span" % (r["name"], r["begin"], T[b][2], T[b][3]))
+        for ts in r["evt"]:
+            if not (r["begin"] - 100_000 <= ts <= r["begin"] + r["dur"] + 100_000):
+                out.append("record %r: event timestamp %d outside the span's interval [%d,%d]" % (r["name"], ts, r["begin"], r["begin"] + r["dur"]))
+    # containment and sibling order among local spans of one report (one clock anchor)
+    for pos, rs in by_report.items():
+        byid = {}
+        for r in rs:
+            byid.setdefault(r["id"], r)
+        kids = {}
+        for r in rs:
+            p = byid.get(r["parent"])
+            es = names.get((r["name"], r["trace"]))
+            if p is None or not es or es[0]["kind"] == "span":
+                continue
+            pes = names.get((p["name"], p["trace"]))
+            if not pes or pes[0]["kind"] == "span":
+                continue        # parent is a thread-safe span: may legitimately finish on another schedule
+            if r["begin"] + 1 < p["begin"] or r["begin"] + r["dur"] > p["begin"] + p["dur"] + 1:
+                out.append("local span %r [%d,+%d] is not within its enclosing local span %r [%d,+%d]" % (r["name"], r["begin"], r["dur"], p["name"], p["begin"], p["dur"]))
+            kids.setdefault((p["id"], r["trace"]), []).append((es[0].get("born") or 0, r))
+        for k, lst in kids.items():
+            lst.sort(key=lambda x: x[0])
+            for (_, a), (_, b) in zip(lst, lst[1:]):
+                if a["name"] != b["name"] and a["begin"] + a["dur"] > b["begin"] + 1:
+                    out.append("sibling local spans %r and %r overlap" % (a["name"], b["name"]))
+    # elapsed()
+    for pos, ns in tr.elapsed.items():
+        v = tr.lines[pos].split()[2]
+        born = None
+        for i in range(pos, -1, -1):
+            w = tr.lines[i].split()
+            if len(w) > 2 and w[2] == v and w[1] in ("root", "child1", "childN", "childLocal"):
+                born = i
+                break
+        if born is not None and ok_pos(born) and ok_pos(pos):
+            lo, hi = T[pos][0] - T[born][1], T[pos][1] - T[born][0]
+            if not (lo - 150_000 <= ns <= hi + 150_000):
+                out.append("elapsed() of %s returned %d ns; the span was created %d..%d ns before" % (v, ns, lo, hi))
     return out
 
 
